@@ -27,7 +27,7 @@ def run_validators(cls, field, value):
     return value
 
 
-def outcome(fn):
+def _outcome_once(fn):
     try:
         fn()
     except ValueError:
@@ -37,6 +37,14 @@ def outcome(fn):
     except Exception as e:  # noqa: BLE001
         return type(e).__name__
     return "ok"
+
+
+def outcome(fn):
+    """outcome of fn(), evaluated TWICE in a row: validation must not depend on having seen the value before
+    (a value rejected once is rejected again, an accepted one is accepted again)"""
+    first = _outcome_once(fn)
+    second = _outcome_once(fn)
+    return first if first == second else "unstable: first %s, then %s" % (first, second)
 
 
 KINDS = {
